@@ -303,6 +303,14 @@ def _attr_chain_base(e: ast.AST) -> Optional[str]:
     return e.id if isinstance(e, ast.Name) else None
 
 
+def _copy_chain(e: ast.AST) -> ast.AST:
+    """Fresh Load-context copy of a pure attribute chain (not deepcopy: nodes may carry parent links)."""
+    if isinstance(e, ast.Attribute):
+        return ast.Attribute(value=_copy_chain(e.value), attr=e.attr, ctx=ast.Load())
+    assert isinstance(e, ast.Name)
+    return ast.Name(id=e.id, ctx=ast.Load())
+
+
 def inline_attribute_copies(tree: ast.Module) -> int:
     """Canonicalisation applied to every parsed module before indexing: a function-local name that is bound
     exactly once, by a plain assignment, to a pure attribute chain of a name that is itself never re-bound in
@@ -390,7 +398,7 @@ def inline_attribute_copies(tree: ast.Module) -> int:
                                 safe = False
                         if not safe:
                             continue
-                        new = copy.deepcopy(adjacent[nm][1])
+                        new = _copy_chain(adjacent[nm][1])
                         for x in ast.walk(new):
                             ast.copy_location(x, use)
                         for par in ast.walk(nxt):
@@ -412,7 +420,7 @@ def inline_attribute_copies(tree: ast.Module) -> int:
                         asg, v = cands[ch.id]
                         if getattr(ch, "lineno", 0) <= getattr(asg, "end_lineno", asg.lineno):
                             continue
-                        new = copy.deepcopy(v)
+                        new = _copy_chain(v)
                         for x in ast.walk(new):
                             ast.copy_location(x, ch)
                         if isinstance(val, list):
